@@ -7,11 +7,10 @@ use serde::{Deserialize, Serialize};
 use vcore::proptest::prelude::*;
 
 /// Static name pools: serde needs `&'static str` for struct / variant / field names.
-pub const FIELD_NAMES: [&str; 10] = [
-    "a", "b", "id", "name", "value", "héllo", "with space", "x_1", "Z", "k\"q",
-];
+/// (all valid Rust identifiers: labels produced by derives are identifiers, and sval_json relies on it)
+pub const FIELD_NAMES: [&str; 10] = ["a", "b", "id", "name", "value", "héllo", "r#type", "x_1", "Z", "kq"];
 pub const TYPE_NAMES: [&str; 4] = ["Point", "Wrapper", "Shape", "E"];
-pub const VARIANT_NAMES: [&str; 5] = ["A", "Circle", "Some", "none", "Var iant"];
+pub const VARIANT_NAMES: [&str; 5] = ["A", "Circle", "Some", "none", "Variant2"];
 
 /// One value of the grammar. Floats are stored as bit patterns and 128-bit integers as decimal text
 /// so that a case survives the JSON replay file unchanged (JSON has neither NaN nor 128-bit numbers).
@@ -401,6 +400,9 @@ pub struct Shape {
     /// a map key that is null/unit/None, a 128-bit number outside i64, a unit variant or a char:
     /// not a string in the source but not one of the shapes D10 is about
     pub odd_key: bool,
+    /// a map key that is an option (`Some`) or an enum variant of any form: sval_json loses track of
+    /// its internal-tagging state after such a key
+    pub tagged_key: bool,
     pub wide_int: bool,
     pub non_finite: bool,
     pub exotic: bool,
@@ -414,6 +416,7 @@ impl Shape {
         self.scalar_key |= o.scalar_key;
         self.composite_key |= o.composite_key;
         self.odd_key |= o.odd_key;
+        self.tagged_key |= o.tagged_key;
         self.wide_int |= o.wide_int;
         self.non_finite |= o.non_finite;
         self.exotic |= o.exotic;
@@ -486,7 +489,7 @@ pub fn shape(n: &Node) -> Shape {
     let mut s = Shape { nodes: 1, ..Shape::default() };
     let mut kids = Shape::default();
     let mut has_kids = false;
-    let mut child = |c: &Node, kids: &mut Shape| {
+    let child = |c: &Node, kids: &mut Shape| {
         kids.merge(shape(c));
     };
     match n {
@@ -517,6 +520,9 @@ pub fn shape(n: &Node) -> Shape {
                     KeyClass::Scalar => s.scalar_key = true,
                     KeyClass::Composite => s.composite_key = true,
                     KeyClass::Odd => s.odd_key = true,
+                }
+                if matches!(k, Node::Some(_) | Node::Variant { .. }) {
+                    s.tagged_key = true;
                 }
                 child(k, &mut kids);
                 child(v, &mut kids);
